@@ -12,7 +12,7 @@ from ..oracles import gap_tol, minimal_masks, popcount, ref_gap
 ID = "C13"
 LEVEL = "exploration"
 SOLVER_NAMES = ("greedy", "greedy_worst", "largest", "random")
-RULE = ("(A) Hypothesis: environment states reached by a drawn reveal prefix (n=4,5) and ALL states of n=3, hidden games from "
+RULE = ("(A) Hypothesis: environment states reached by a drawn reveal prefix (n=4,5) and ALL states of n=3, each with step budgets none / last permitted move / some left / used up, hidden games from "
         "asymmetric sources (harness superadditive/SAM constructions, noisy factory, XOS, graph families) so that rewards differ "
         "between actions; each registered solver: public snapshot (table, steps_taken, state, reward, done, mask, hidden game) "
         "identical before/after next_step; action valid; greedy = lowest index among actions whose own-computed immediate reward "
@@ -83,13 +83,14 @@ def check_case(case: dict) -> Result:
         count = 0
         for r in range(0, nexp):
             for prefix in itertools.permutations(range(nexp), r):
-                one = _check_state({**case, "prefix": list(prefix)})
-                count += 1
-                total.nontrivial = total.nontrivial or one.nontrivial
-                total.labels = one.labels
-                if one.failures:
-                    total.failures = one.failures
-                    return total
+                for budget in (None, r + 1, r + 2):
+                    one = _check_state({**case, "prefix": list(prefix), "cfg": {**case["cfg"], "budget": budget}})
+                    count += 1
+                    total.nontrivial = total.nontrivial or one.nontrivial
+                    total.labels = one.labels
+                    if one.failures:
+                        total.failures = [f"{m} [budget {budget}]" for m in one.failures]
+                        return total
         total.labels.append(f"all-states={count}")
         return total
     return _check_state(case)
@@ -150,6 +151,8 @@ def _check_state(case: dict) -> Result:
     sizes = {popcount(explorable[a]) for a in valid}
     res.nontrivial = differ and (len(sizes) >= 2 or "largest" not in case["solvers"] or n == 3)
     res.label(f"n={n}", f"comp={cfg['computer']}", f"gap={cfg['gap']}", "src=" + cfg["games"][0].get("how", "?").split("(")[0])
+    b = cfg.get("budget")
+    res.label("budget=" + ("none" if b is None else "last-move" if b == len(case["prefix"]) + 1 else "used-up" if b <= len(case["prefix"]) else "some-left"))
     if differ:
         res.label("rewards-differ")
     return res
@@ -286,7 +289,9 @@ def state_cases(draw, n_min: int, n_max: int):
     comp = draw(st.sampled_from(["superadditive", "superadditive_cached"] + (["sam_apx_1", "sam_apx_10"] if cls == "sam" else [])))
     nexp = (1 << n) - n - 2
     prefix = draw(st.lists(st.integers(0, nexp - 1), max_size=nexp - 1, unique=True))
-    return {"kind": "state", "cfg": {"n": n, "games": games, "computer": comp, "gap": draw(st.sampled_from(["exploitability", "l1_norm", "l2_norm", "linf_norm"])), "budget": None},
+    # step budgets: none, exactly one move left (the last permitted move), a few left, already used up
+    budget = draw(st.sampled_from([None, None, len(prefix) + 1, len(prefix) + 1, len(prefix) + 2, len(prefix) + 3, max(1, len(prefix))]))
+    return {"kind": "state", "cfg": {"n": n, "games": games, "computer": comp, "gap": draw(st.sampled_from(["exploitability", "l1_norm", "l2_norm", "linf_norm"])), "budget": budget},
             "prefix": prefix, "solvers": list(SOLVER_NAMES), "seed": draw(st.integers(0, 10**6))}
 
 
